@@ -26,7 +26,8 @@ ASSUMPTIONS = [
 ]
 REQUIRED_CLASSES = ["view-then-op", "empty-row", "unequal-rows", "single-row", "setitem", "concat", "compare-array", "split-join", "negative-index",
                     "empty-selection", "two-dimensional", "fancy-columns-then-ravel", "built-from-encoded-rows",
-                    "str-equal-of-two-ragged-arrays", "numpy-array-function-on-flat-array"]
+                    "str-equal-of-two-ragged-arrays", "numpy-array-function-on-flat-array",
+                    "split-on-a-list-of-letters"]
 BOUNDS = {"quick": "1500 programs of up to 12 steps for each of 4 encodings, lists of up to 6 strings of length up to 8",
           "thorough": "12000 programs of up to 30 steps per encoding, lists of up to 12 strings of length up to 20"}
 BUDGET_S = {"quick": 200, "thorough": 1500}
@@ -326,9 +327,17 @@ def run(case, on_step=None):
                     push(bnp.as_encoded_array(lit, enc), lit, op)
                     push(np.asarray(a == lit), [x == y for x, y in zip(changed, lit)], op, check_encoding=False)
                 elif name == "split":
-                    if case["enc"] != "ascii" or L == 0:
+                    if L == 0:
                         continue
-                    push(strops.split(R, sep=","), M.split(","), op)
+                    if case["enc"] == "ascii" and not op.get("seps"):
+                        push(strops.split(R, sep=","), M.split(","), op)
+                    elif op.get("seps"):
+                        # separators taken from the operand's own alphabet, given as one letter or as a list of letters
+                        import re
+                        seps = sorted({alphabet[k % len(alphabet)] for k in op["seps"]})
+                        want_rows = re.split("[" + "".join(re.escape(c_) for c_ in seps) + "]", M)
+                        sep_arg = seps[0] if (len(seps) == 1 and op.get("as_str")) else list(seps)
+                        push(strops.split(R, sep=sep_arg), want_rows, op)
                 else:
                     continue
             if want == "matrix":
@@ -416,6 +425,8 @@ def classify(case):
         cl.append("empty-selection")
     if "from_rows" in names:
         cl.append("built-from-encoded-rows")
+    if any(op["op"] == "split" and op.get("seps") and not op.get("as_str") for op in prog):
+        cl.append("split-on-a-list-of-letters")
     if any(op["op"] in ("f_where", "f_append", "f_insert", "f_full_like", "f_windows") for op in prog):
         cl.append("numpy-array-function-on-flat-array")
     if any(op["op"] == "str_equal" and op.get("other") == 3 for op in prog):
@@ -473,6 +484,7 @@ def op_strategy(with_matrix=False):
         st.builds(lambda s, t: {"op": "f_concat", "on": "flat", "src": s, "src2": t}, src, src),
         st.builds(lambda s: {"op": "f_copy", "on": "flat", "src": s}, src),
         st.builds(lambda s: {"op": "split", "on": "flat", "src": s}, src),
+        st.builds(lambda s, k, a: {"op": "split", "on": "flat", "src": s, "seps": k, "as_str": int(a)}, src, st.lists(st.integers(0, 25), min_size=1, max_size=2), st.booleans()),
         st.builds(lambda s, b, k: {"op": "f_where", "on": "flat", "src": s, "bits": b, "k": k}, src, bits, st.integers(0, 9)),
         st.builds(lambda s, k: {"op": "f_append", "on": "flat", "src": s, "k": k}, src, st.integers(0, 30)),
         st.builds(lambda s, i, k: {"op": "f_insert", "on": "flat", "src": s, "i": i, "k": k}, src, st.integers(0, 40), st.integers(0, 30)),
